@@ -11,7 +11,7 @@ TERM = "::dxrt::Term"
 def specs_all(tier):
     out = []
     k = 0
-    shapes = ["plain", "generic", "generic_self_where", "generic_self_hrtb", "output_self"]
+    shapes = ["plain", "generic", "generic_self_where", "generic_self_hrtb", "generic_self_hrtb_inline", "output_self"]
     for op in C.BINOPS:
         for shape in shapes:
             for lref in (False, True):
@@ -36,6 +36,9 @@ def render(s):
     sym = C.OPSYM[op]
     generic = s["shape"] != "plain"
     g = "<T>" if generic else ""
+    if s["shape"] == "generic_self_hrtb_inline":
+        # an inline bound that is already higher-ranked and mentions `Self`
+        g = "<T: for<'b> ::dxrt::TagP<'b, Self>>"
     A = "A<T>" if generic else "A"
     B = ("O<T>" if generic else "O") if s["other"] else A
     fty = "T" if generic else TERM
@@ -49,9 +52,10 @@ def render(s):
         if s["shape"] == "generic_self_hrtb":
             # a predicate on `Self` that is already higher-ranked
             wh += ", for<'b> Self: ::dxrt::TagL<'b>"
-    defs = [f"#[derive(Clone)] pub struct A{g}(pub {fty});"]
+    gdef = "<T>" if generic else ""
+    defs = [f"#[derive(Clone)] pub struct A{gdef}(pub {fty});"]
     if s["other"]:
-        defs.append(f"#[derive(Clone)] pub struct O{g}(pub {fty});")
+        defs.append(f"#[derive(Clone)] pub struct O{gdef}(pub {fty});")
     getl = "::dxrt::Tm::s(&self.0)" if generic else "self.0.0.clone()"
     getr = "::dxrt::Tm::s(&uo.0)" if generic else "uo.0.0.clone()"
     mkt = (lambda e: f"<T as ::dxrt::Tm>::mk({e})") if generic else (lambda e: f"{TERM}({e})")
